@@ -99,9 +99,9 @@ Tactic Notation "inv_spawn" hyp(H) := unfold step in H; injection H as <-.
 Tactic Notation "inv_select" hyp(H) constr(sel) constr(s) constr(t) ident(o) ident(r) ident(Hn) ident(Hsel) :=
   unfold step in H; destruct (nth_error (threads s) t) as [[|?|?|?|?]|] eqn:Hn; try discriminate H;
   destruct (sel s) as [o r] eqn:Hsel; injection H as <-.
-Tactic Notation "inv_begin" hyp(H) constr(s) constr(t) ident(h) ident(Hn) :=
+Tactic Notation "inv_begin" hyp(H) constr(c) constr(s) constr(t) ident(h) ident(Hn) ident(F) :=
   unfold step in H; destruct (nth_error (threads s) t) as [[|[h|]|?|?|?]|] eqn:Hn; try discriminate H;
-  injection H as <-.
+  destruct (full c s h) eqn:F; injection H as <-.
 Tactic Notation "inv_nohost" hyp(H) constr(s) constr(t) ident(Hn) :=
   unfold step in H; destruct (nth_error (threads s) t) as [[|[?|]|?|?|?]|] eqn:Hn; try discriminate H;
   injection H as <-.
@@ -124,9 +124,12 @@ Proof.
     intros h. rewrite cnt_app. simpl. rewrite Ic. lia.
   - (* select *) inv_select H sel s t o r Hn Hsel. constructor; simpl; auto.
     intros h. rewrite (cnt_set_nth _ _ _ _ _ Hn). rewrite Ic. simpl. lia.
-  - (* begin *) inv_begin H s t h Hn. constructor; simpl; auto.
-    intros h0. rewrite (cnt_set_nth _ _ _ _ _ Hn). rewrite bump_spec, Ic. simpl. unfold b2z.
-    destruct (Nat.eqb h0 h); lia.
+  - (* begin *) inv_begin H c s t h Hn F.
+    + (* the host is full: the request is not counted *) constructor; simpl; auto.
+      intros h0. rewrite (cnt_set_nth _ _ _ _ _ Hn). rewrite Ic. simpl. lia.
+    + constructor; simpl; auto.
+      intros h0. rewrite (cnt_set_nth _ _ _ _ _ Hn). rewrite bump_spec, Ic. simpl. unfold b2z.
+      destruct (Nat.eqb h0 h); lia.
   - (* no host *) inv_nohost H s t Hn. constructor; simpl; auto.
     intros h. rewrite (cnt_set_nth _ _ _ _ _ Hn). rewrite Ic. simpl. destruct again; simpl; lia.
   - (* finish *) inv_finish H s t h Hn. constructor; simpl; auto.
@@ -367,108 +370,81 @@ Qed.
 Lemma sel_of_sound pol c : sel_sound c (sel_of pol c).
 Proof. unfold sel_of. destruct (pol =? 0)%N; [apply sel_first_sound | apply sel_rr_sound]. Qed.
 
-(* refutation: two requests, one backend, max_conns 1 *)
-Definition cfg_refute : config :=
+(* the demonstration configuration: one backend, max_conns 1; [sched_window] is the schedule in
+   which two requests share the select/increment window *)
+Definition cfg_cap1 : config :=
   {| c_hosts := 1; c_max_conns := 1; c_max_fails := 1; c_fail_timeout := 10; c_unhealthy := fun _ => false |}.
-Definition sched_refute : list label := [LSpawn; LSpawn; LSelect 0; LSelect 1; LBegin 0; LBegin 1].
+Definition sched_window : list label := [LSpawn; LSpawn; LSelect 0; LSelect 1; LBegin 0; LBegin 1].
 
-Lemma conns_le_max_refuted :
-  exists c sel s h, sel_sound c sel /\ reachable c sel s /\ 0 < c_max_conns c /\ c_max_conns c < conns s h.
+(* the cap holds in every reachable state: the increment happens only in the atomic step that
+   also sees the host not full *)
+Lemma step_cap c sel s l s' :
+  0 < c_max_conns c -> (forall h, conns s h <= c_max_conns c) -> step c sel s l = Some s' ->
+  forall h, conns s' h <= c_max_conns c.
 Proof.
-  exists cfg_refute, (sel_first cfg_refute).
-  destruct (run cfg_refute (sel_first cfg_refute) (init 0) sched_refute) as [s|] eqn:E;
-    [|vm_compute in E; discriminate].
-  exists s, 0%nat. split; [apply sel_first_sound|]. split; [exists 0%N, sched_refute; exact E|].
-  vm_compute in E. injection E as <-. vm_compute. split; reflexivity.
+  intros Hm HC H. destruct l.
+  - inv_spawn H. exact HC.
+  - inv_select H sel s t o r Hn Hsel. exact HC.
+  - inv_begin H c s t h Hn F; [exact HC|].
+    intros h0. simpl. rewrite bump_spec. destruct (Nat.eqb h0 h) eqn:E; [|specialize (HC h0); lia].
+    apply Nat.eqb_eq in E. subst h0. unfold full in F. apply andb_false_iff in F as [F|F].
+    + apply Z.ltb_ge in F. lia.
+    + apply Z.leb_gt in F. lia.
+  - inv_nohost H s t Hn. exact HC.
+  - inv_finish H s t h Hn. intros h0. simpl. rewrite bump_spec. specialize (HC h0). destruct (Nat.eqb h0 h); lia.
+  - inv_record H c s t h Hn Hft; exact HC.
+  - inv_fire H s k h d Hn Hdue. exact HC.
+  - inv_tick H d Hd. exact HC.
 Qed.
 
-(* with the window serialised the cap holds *)
-Lemma step_ser_step c sel s l s' : step_ser c sel s l = Some s' -> step c sel s l = Some s'.
-Proof. destruct l; simpl; auto. destruct (window_free s); [auto|discriminate]. Qed.
-
-Lemma run_ser_run c sel ls : forall s s', run_ser c sel s ls = Some s' -> run c sel s ls = Some s'.
+Lemma run_cap c sel ls : forall s s',
+  0 < c_max_conns c -> (forall h, conns s h <= c_max_conns c) -> run c sel s ls = Some s' ->
+  forall h, conns s' h <= c_max_conns c.
 Proof.
-  induction ls as [|l ls IH]; intros s s' H; simpl in *; [exact H|].
-  destruct (step_ser c sel s l) as [s1|] eqn:E; [|discriminate].
-  rewrite (step_ser_step _ _ _ _ _ E). exact (IH _ _ H).
-Qed.
-
-Lemma reachable_ser_reachable c sel s : reachable_ser c sel s -> reachable c sel s.
-Proof. intros (r & ls & H). exists r, ls. exact (run_ser_run _ _ _ _ _ H). Qed.
-
-Definition Cap (c : config) (s : state) : Prop :=
-  forall h, conns s h + cnt (is_sel h) (threads s) <= c_max_conns c.
-
-Lemma window_free_no_sel s h : window_free s = true -> cnt (is_sel h) (threads s) = 0.
-Proof.
-  unfold window_free. intros H. apply cnt_zero. intros p Hp.
-  rewrite forallb_forall in H. specialize (H p Hp).
-  destruct p as [|[x|]| | |]; simpl in *; try reflexivity. discriminate.
-Qed.
-
-Lemma step_ser_cap c sel s l s' :
-  sel_sound c sel -> 0 < c_max_conns c -> Cap c s -> step_ser c sel s l = Some s' -> Cap c s'.
-Proof.
-  intros Hs Hm HC H. destruct l; unfold step_ser in H.
-  - inv_spawn H. intros h. simpl. rewrite cnt_app. simpl. specialize (HC h). lia.
-  - destruct (window_free s) eqn:W; [|discriminate]. inv_select H sel s t o r Hn Hsel. intros h. simpl.
-    rewrite (cnt_set_nth _ _ _ _ _ Hn). rewrite (window_free_no_sel _ h W). simpl. unfold b2z.
-    destruct o as [x|]; simpl; [|specialize (HC h); rewrite (window_free_no_sel _ h W) in HC; lia].
-    destruct (Nat.eqb h x) eqn:E.
-    + apply Nat.eqb_eq in E. subst x. pose proof (Hs _ _ _ Hsel) as Av.
-      unfold available, full in Av. apply andb_true_iff in Av as [_ Av].
-      apply negb_true_iff in Av. apply andb_false_iff in Av as [Av|Av].
-      * apply Z.ltb_ge in Av. lia.
-      * apply Z.leb_gt in Av. lia.
-    + specialize (HC h). rewrite (window_free_no_sel _ h W) in HC. lia.
-  - inv_begin H s t h Hn. intros h0. simpl. rewrite (cnt_set_nth _ _ _ _ _ Hn). rewrite bump_spec. simpl. unfold b2z.
-    specialize (HC h0). destruct (Nat.eqb h0 h); lia.
-  - inv_nohost H s t Hn. intros h. simpl. rewrite (cnt_set_nth _ _ _ _ _ Hn). simpl.
-    specialize (HC h). destruct again; simpl; lia.
-  - inv_finish H s t h Hn. intros h0. simpl. rewrite (cnt_set_nth _ _ _ _ _ Hn). rewrite bump_spec. simpl. unfold b2z.
-    specialize (HC h0). destruct o; simpl; destruct (Nat.eqb h0 h); lia.
-  - inv_record H c s t h Hn Hft; intros h0; simpl; rewrite (cnt_set_nth _ _ _ _ _ Hn); simpl;
-      specialize (HC h0); destruct again; simpl; lia.
-  - inv_fire H s k h d Hn Hdue. intros h0. simpl. exact (HC h0).
-  - inv_tick H d Hd. intros h0. simpl. exact (HC h0).
-Qed.
-
-Lemma run_ser_cap c sel ls : forall s s',
-  sel_sound c sel -> 0 < c_max_conns c -> Cap c s -> run_ser c sel s ls = Some s' -> Cap c s'.
-Proof.
-  induction ls as [|l ls IH]; intros s s' Hs Hm HC H; simpl in H.
+  induction ls as [|l ls IH]; intros s s' Hm HC H; simpl in H.
   - injection H as <-. exact HC.
-  - destruct (step_ser c sel s l) as [s1|] eqn:E; [|discriminate].
-    exact (IH _ _ Hs Hm (step_ser_cap _ _ _ _ _ Hs Hm HC E) H).
+  - destruct (step c sel s l) as [s1|] eqn:E; [|discriminate].
+    exact (IH _ _ Hm (step_cap _ _ _ _ _ Hm HC E) H).
 Qed.
 
-Lemma conns_le_max_serialized c sel s h :
-  sel_sound c sel -> 0 < c_max_conns c -> reachable_ser c sel s ->
-  conns s h + cnt (is_sel h) (threads s) <= c_max_conns c.
+Lemma conns_le_max c sel s h :
+  0 < c_max_conns c -> reachable c sel s -> conns s h <= c_max_conns c.
 Proof.
-  intros Hs Hm (r & ls & H).
-  apply (run_ser_cap c sel ls (init r) s Hs Hm); [|exact H].
+  intros Hm (r & ls & H). apply (run_cap c sel ls (init r) s Hm); [|exact H].
   intros h0. simpl. lia.
 Qed.
 
-Lemma conns_le_max_serialized' c sel s h :
-  sel_sound c sel -> 0 < c_max_conns c -> reachable_ser c sel s -> conns s h <= c_max_conns c.
+Lemma forwarding_le_max c sel s h :
+  0 < c_max_conns c -> reachable c sel s -> cnt (is_fwd h) (threads s) <= c_max_conns c.
 Proof.
-  intros Hs Hm R. pose proof (conns_le_max_serialized _ _ _ h Hs Hm R).
-  pose proof (cnt_nonneg (is_sel h) (threads s)). lia.
+  intros Hm R. rewrite <- (conns_counts_forwarding _ _ _ h R). exact (conns_le_max _ _ _ h Hm R).
 Qed.
 
-(* in ANY schedule the overshoot is bounded by the requests that shared the window:
-   Conns never exceeds max_conns - 1 + (number of requests alive), and a host is never selected
-   while it is observed full *)
+(* leaving the window: the request is forwarded to the host it holds exactly when that host is
+   not full at that instant; otherwise it is not counted and takes the no-host path *)
+Lemma nth_error_set_nth {A} (l : list A) t v q : nth_error l t = Some q -> nth_error (set_nth l t v) t = Some v.
+Proof.
+  revert t; induction l as [|x l IH]; intros [|t] H; simpl in *; try discriminate; auto.
+Qed.
+
+Lemma begin_forwards_unless_full c sel s t h s' :
+  nth_error (threads s) t = Some (Selected (Some h)) -> step c sel s (LBegin t) = Some s' ->
+  (full c s h = false -> nth_error (threads s') t = Some (Forwarding h) /\ conns s' h = conns s h + 1) /\
+  (full c s h = true -> nth_error (threads s') t = Some (Selected None) /\ conns s' = conns s).
+Proof.
+  intros Hn H. unfold step in H. rewrite Hn in H.
+  destruct (full c s h) eqn:F; injection H as <-; simpl; split; intros E; try discriminate E.
+  - split; [exact (nth_error_set_nth _ _ _ _ Hn) | reflexivity].
+  - split; [exact (nth_error_set_nth _ _ _ _ Hn) | apply bump_same].
+Qed.
+
+(* a sound selector never hands out a host while it is observed full or down *)
 Lemma select_not_full c sel s t s' h :
   sel_sound c sel -> step c sel s (LSelect t) = Some s' ->
   nth_error (threads s') t = Some (Selected (Some h)) -> available c s h = true.
 Proof.
   intros Hs H Hn. inv_select H sel s t o r Hn0 Hsel. simpl in Hn.
-  assert (E : forall (l : list pc) t v q, nth_error l t = Some q -> nth_error (set_nth l t v) t = Some v).
-  { clear. induction l as [|x l IH]; intros [|t] v q H; simpl in *; try discriminate; auto. exact (IH _ _ _ H). }
-  rewrite (E _ _ _ _ Hn0) in Hn. injection Hn as ->. exact (Hs _ _ _ Hsel).
+  rewrite (nth_error_set_nth _ _ _ _ Hn0) in Hn. injection Hn as ->. exact (Hs _ _ _ Hsel).
 Qed.
 
 (* ---------- the states the correspondence check evaluates are reachable states ---------- *)
@@ -503,8 +479,11 @@ Proof.
   - destruct (step c sel s (LSelect t)) as [s1|] eqn:E; [|discriminate]. injection H as <- _.
     exists [LSelect t]. simpl. rewrite E. reflexivity.
   - destruct (nth_error (threads s) t) as [[|[x|]| | |]|]; try discriminate.
-    + destruct (step c sel s (LBegin t)) as [s1|] eqn:E; [|discriminate]. injection H as <- _.
-      exists [LBegin t]. simpl. rewrite E. reflexivity.
+    + destruct (step c sel s (LBegin t)) as [s1|] eqn:E; [|discriminate].
+      destruct (nth_error (threads s1) t) as [[|[y|]| | |]|];
+        try (injection H as <- _; exists [LBegin t]; simpl; rewrite E; reflexivity).
+      destruct (step c sel s1 (LNoHost t again)) as [s2|] eqn:E2; [|discriminate]. injection H as <- _.
+      exists [LBegin t; LNoHost t again]. simpl. rewrite E, E2. reflexivity.
     + destruct (step c sel s (LNoHost t again)) as [s1|] eqn:E; [|discriminate]. injection H as <- _.
       exists [LNoHost t again]. simpl. rewrite E. reflexivity.
   - destruct (nth_error (threads s) t) as [[| | | |]|]; try discriminate. injection H as <- _.
@@ -558,8 +537,27 @@ Proof.
   - rewrite Z.mod_small by lia. destruct (n <? 2147483648) eqn:L; [reflexivity | apply Z.ltb_ge in L; lia].
 Qed.
 
-Lemma maxfails_wrap_refuted : exists n k, 1 <= n /\ 0 <= k < n /\ (wrap_int32 n <=? k) = true.
-Proof. exists 4294967296, 0. vm_compute. intuition discriminate. Qed.
+(* an accepted max_fails is stored unchanged: the threshold in force is the configured one *)
+Lemma max_fails_stored n m : parse_max_fails n = Some m -> m = n /\ 1 <= m.
+Proof.
+  unfold parse_max_fails, fits_int32. intros H.
+  destruct ((-2147483648 <=? n) && (n <? 2147483648)) eqn:F; [|discriminate].
+  destruct (n <? 1) eqn:L; [discriminate|]. injection H as <-.
+  apply andb_true_iff in F as [F1 F2]. apply Z.leb_le in F1. apply Z.ltb_lt in F2. apply Z.ltb_ge in L.
+  rewrite wrap_int32_id by lia. lia.
+Qed.
+
+Lemma max_fails_accepted_iff n : (exists m, parse_max_fails n = Some m) <-> 1 <= n < 2147483648.
+Proof.
+  unfold parse_max_fails, fits_int32. split.
+  - intros [m H]. destruct ((-2147483648 <=? n) && (n <? 2147483648)) eqn:F; [|discriminate].
+    destruct (n <? 1) eqn:L; [discriminate|].
+    apply andb_true_iff in F as [_ F2]. apply Z.ltb_lt in F2. apply Z.ltb_ge in L. lia.
+  - intros [H1 H2]. exists (wrap_int32 n).
+    assert (F : (-2147483648 <=? n) && (n <? 2147483648) = true)
+      by (apply andb_true_iff; split; [apply Z.leb_le | apply Z.ltb_lt]; lia).
+    rewrite F. assert (L : (n <? 1) = false) by (apply Z.ltb_ge; lia). rewrite L. reflexivity.
+Qed.
 
 (* every step except the passing of time keeps the expiry goroutines on time *)
 Lemma step_prompt c sel s l s' :
@@ -568,7 +566,7 @@ Proof.
   intros Hl Pr H. destruct l.
   - inv_spawn H. exact Pr.
   - inv_select H sel s t o r Hn Hsel. exact Pr.
-  - inv_begin H s t h Hn. exact Pr.
+  - inv_begin H c s t h Hn F; exact Pr.
   - inv_nohost H s t Hn. exact Pr.
   - inv_finish H s t h Hn. exact Pr.
   - inv_record H c s t h Hn Hft; [|exact Pr].
@@ -584,8 +582,11 @@ Proof.
   - destruct (step c sel s (LSelect t)) as [s1|] eqn:E; [|discriminate]. injection H as <- _.
     eapply step_prompt; [|exact Pr|exact E]; intros ?; discriminate.
   - destruct (nth_error (threads s) t) as [[|[x|]| | |]|]; try discriminate.
-    + destruct (step c sel s (LBegin t)) as [s1|] eqn:E; [|discriminate]. injection H as <- _.
-      eapply step_prompt; [|exact Pr|exact E]; intros ?; discriminate.
+    + destruct (step c sel s (LBegin t)) as [s1|] eqn:E; [|discriminate].
+      assert (P1 : prompt s1) by (eapply step_prompt; [|exact Pr|exact E]; intros ?; discriminate).
+      destruct (nth_error (threads s1) t) as [[|[y|]| | |]|]; try (injection H as <- _; exact P1).
+      destruct (step c sel s1 (LNoHost t again)) as [s2|] eqn:E2; [|discriminate]. injection H as <- _.
+      eapply step_prompt; [|exact P1|exact E2]; intros ?; discriminate.
     + destruct (step c sel s (LNoHost t again)) as [s1|] eqn:E; [|discriminate]. injection H as <- _.
       eapply step_prompt; [|exact Pr|exact E]; intros ?; discriminate.
   - destruct (nth_error (threads s) t) as [[| | | |]|]; try discriminate. injection H as <- _. exact Pr.
@@ -610,70 +611,4 @@ Lemma harness_steps_reachable c sel s h s' e :
   reachable c sel s -> prompt s -> hexec c sel s h = Some (s', e) -> reachable c sel s' /\ prompt s'.
 Proof.
   intros R P H. split; [exact (hexec_reachable _ _ _ _ _ _ R H) | exact (hexec_prompt _ _ _ _ _ _ P H)].
-Qed.
-
-(* ---------- the repair: re-checking the cap in the increment ---------- *)
-Lemma step_res_cases c sel s l s' :
-  step_res c sel s l = Some s' ->
-  step c sel s l = Some s' \/
-  exists t h, l = LBegin t /\ nth_error (threads s) t = Some (Selected (Some h)) /\ full c s h = true /\
-              s' = {| conns := conns s; fails := fails s; timers := timers s; fired := fired s;
-                      flog := flog s; now := now s; threads := set_nth (threads s) t (Selected None);
-                      robin := robin s |}.
-Proof.
-  intros H. destruct l; try (left; exact H). unfold step_res in H.
-  destruct (nth_error (threads s) t) as [[|[h|]|?|?|?]|] eqn:Hn; try discriminate H.
-  destruct (full c s h) eqn:F; [|left; exact H].
-  right. exists t, h. injection H as <-. auto.
-Qed.
-
-Lemma step_res_inv c sel s l s' : Inv c s -> step_res c sel s l = Some s' -> Inv c s'.
-Proof.
-  intros I H. destruct (step_res_cases _ _ _ _ _ H) as [H1|(t & h & -> & Hn & F & ->)].
-  - exact (step_inv _ _ _ _ _ I H1).
-  - destruct I as [Ic If Il Id Ip Io]. constructor; simpl; auto.
-    intros h0. rewrite (cnt_set_nth _ _ _ _ _ Hn). rewrite Ic. simpl. lia.
-Qed.
-
-Lemma step_res_cap c sel s l s' :
-  0 < c_max_conns c -> (forall h, conns s h <= c_max_conns c) -> step_res c sel s l = Some s' ->
-  forall h, conns s' h <= c_max_conns c.
-Proof.
-  intros Hm HC H. destruct (step_res_cases _ _ _ _ _ H) as [H1|(t & h & -> & Hn & F & ->)]; [|exact HC].
-  destruct l.
-  - inv_spawn H1. exact HC.
-  - inv_select H1 sel s t o r Hn Hsel. exact HC.
-  - (* the increment happens only when the host is not full *)
-    unfold step_res in H. inv_begin H1 s t h Hn.
-    destruct (full c s h) eqn:F; [injection H as H; exfalso|].
-    + (* refused branch yields a different state: conns unchanged; contradiction with bump unless impossible *)
-      apply (f_equal (fun f => f h)) in H. rewrite bump_same in H. lia.
-    + intros h0. simpl. rewrite bump_spec. destruct (Nat.eqb h0 h) eqn:E; [|specialize (HC h0); lia].
-      apply Nat.eqb_eq in E. subst h0. unfold full in F. apply andb_false_iff in F as [F|F].
-      * apply Z.ltb_ge in F. lia.
-      * apply Z.leb_gt in F. lia.
-  - inv_nohost H1 s t Hn. exact HC.
-  - inv_finish H1 s t h Hn. intros h0. simpl. rewrite bump_spec. specialize (HC h0). destruct (Nat.eqb h0 h); lia.
-  - inv_record H1 c s t h Hn Hft; exact HC.
-  - inv_fire H1 s k h d Hn Hdue. exact HC.
-  - inv_tick H1 d Hd. exact HC.
-Qed.
-
-Lemma run_res_inv_cap c sel ls : forall s s',
-  0 < c_max_conns c -> Inv c s -> (forall h, conns s h <= c_max_conns c) -> run_res c sel s ls = Some s' ->
-  Inv c s' /\ forall h, conns s' h <= c_max_conns c.
-Proof.
-  induction ls as [|l ls IH]; intros s s' Hm I HC H; simpl in H.
-  - injection H as <-. split; assumption.
-  - destruct (step_res c sel s l) as [s1|] eqn:E; [|discriminate].
-    exact (IH _ _ Hm (step_res_inv _ _ _ _ _ I E) (step_res_cap _ _ _ _ _ Hm HC E) H).
-Qed.
-
-Lemma conns_le_max_with_recheck c sel s h :
-  0 < c_max_conns c -> reachable_res c sel s ->
-  conns s h = cnt (is_fwd h) (threads s) /\ conns s h <= c_max_conns c.
-Proof.
-  intros Hm (r & ls & H).
-  destruct (run_res_inv_cap c sel ls (init r) s Hm (inv_init c r)) as [I HC]; [simpl; intros; lia | exact H |].
-  split; [apply (inv_conns _ _ I) | apply HC].
 Qed.
